@@ -63,6 +63,18 @@ else:
         pass
 
 
+def is_concrete_int(x):
+    """CrossHair's symbolic ints answer type(x) is int with True: look underneath the tracer"""
+    try:
+        from crosshair.tracers import NoTracing, is_tracing
+    except Exception:
+        return type(x) is int
+    if not is_tracing():
+        return type(x) is int
+    with NoTracing():
+        return type(x) is int
+
+
 def ival(x):
     """plain int of a numpy / shim scalar (no realisation of symbolic ints in shim mode)"""
     if MODE == "shim":
@@ -73,7 +85,15 @@ def ival(x):
 def snap_array(a):
     if MODE == "shim":
         d = a.data
-        return ("arr", tuple(a.shape), d.snapshot() if hasattr(d, "snapshot") else list(d))
+        if all(is_concrete_int(x) for x in a.shape):
+            n = 1
+            for x in a.shape:
+                n = n * x
+            if n <= 64:
+                return ("arr", tuple(a.shape), tuple(a.tolist()))
+        if hasattr(d, "snapshot"):
+            return ("arr", tuple(a.shape), dict((k, v) for k, v in d.snapshot().items() if not (is_concrete_int(v) and v == 0)))
+        return ("arr", tuple(a.shape), list(d))
     return ("arr", tuple(a.shape), a.tobytes())
 
 
